@@ -56,7 +56,13 @@ Theorem C16_close_returns_client :
 Proof. exact close_returns_client. Qed.
 Print Assumptions C16_close_returns_client.
 
-(* Listener.Close waits for l.ch: released once the listener goroutine (thread 3) got 5 steps *)
+(* Listener.Close waits for l.ch: released once the listener goroutine (thread 3) got 5 steps.
+   The calls range over [entry], which contains Listener.Replace to an address that can be bound
+   ([LR0 true]) and to one that cannot ([LR0 false]; the failed Replace runs Close itself, with
+   stateReplacing left set and the socket nil): every history of Replace(ok) / Replace(fails) /
+   Close / Server.Close in any order, number and interleaving.  The accept loop tests Closing
+   BEFORE "socket nil and being replaced: nap and retry" -- with the two guards swapped
+   [listener_step] is false (the loop naps for ever after a failed Replace). *)
 Theorem C16_close_returns_listener :
   forall cpk spk chm rch cbk calls s0 pool w j q s1 pool' w' r,
     forallb entry calls = true ->
@@ -150,6 +156,15 @@ Theorem C16_remove_race_refuted :
   faulted (run New sched_remove_race (pool0 [SH0 false; SV0]) (world0 false false false true false)) = false.
 Proof. exact (conj remove_race_refuted remove_race_repaired). Qed.
 Print Assumptions C16_remove_race_refuted.
+
+(* after Replace(fails); Replace(ok); Close in this order: all three returned, l.ch closed *)
+Theorem C16_replace_history_example :
+  match model_run New false false false true false [[21]; [20]; [10]]%Z with
+  | Running pool w => forallb quiescent_pc (skipn (length service) pool) && is_closed (l_done w) && negb (l_repl w) && negb (l_nil w)
+  | Faulted _ _ => false
+  end = true.
+Proof. exact replace_history_example. Qed.
+Print Assumptions C16_replace_history_example.
 
 (* ---- non-vacuity --------------------------------------------------------------------------- *)
 (* three concurrent calls (client Close, server-side Close, context cancel) on a registered
